@@ -379,6 +379,10 @@ def _gen_unc(rng, n):
         kind, x = gen_floats(rng, 1)[0]
         p = rng.randint(1, 10)
         mode = rng.choice(["rand", "rand", "carry_unc", "round_digit", "coarse"])
+        if rng.random() < 0.03:           # the corner where the last kept digit lies below 1e-308 (see _unc_standin)
+            x = _mk(rng.choice([1, -1]), str(rng.randint(1, 9)) + "".join(rng.choice("0123456789") for _ in range(rng.randint(0, 12))),
+                    rng.randint(-300, -290))
+            p = rng.randint(4, 10)
         if mode == "coarse":
             rel = 10 ** rng.uniform(-2, math.log10(0.5))
         else:
